@@ -899,6 +899,11 @@ class FullOps(TorchCalls):
             return a0.but(dtype="Bool", deg=F0)
         if fn in ("matrix_rank",):
             return TV(kind=kind, axes=(), deg=F0, dtype="Int", p=a0.p, q=a0.q, s=a0.s, z=a0.z)
+        if fn == "isclose" and len(args) >= 2 and isinstance(kwargs.get("rtol"), Const) and kwargs["rtol"].v in (0, 0.0) and kwargs.get("atol") is not None and tv_of(args[1]) is not None:
+            # isclose(a, b, rtol=0, atol=t) is |a - b| <= t — inclusive
+            diff = self.elementwise(a0, tv_of(args[1]), "sub", node)
+            diff = self.call_lib(lib, "abs", [diff], {}, node, env)
+            return self.compare(diff, ast.LtE(), kwargs["atol"], node, env)
         if fn == "allclose" or fn == "equal" or fn == "array_equal":
             return TV(kind="pybool", dtype="Bool")
 
